@@ -39,6 +39,23 @@ func main() {
 		}
 	case "check":
 		os.Exit(cmdCheck(os.Args[2:]))
+	case "ssa":
+		prog, err := Load(LoadOpts{Patterns: []string{"./..."}})
+		if err != nil {
+			fmt.Fprintln(os.Stderr, err)
+			os.Exit(2)
+		}
+		for _, spec := range os.Args[2:] {
+			fn := prog.Func(spec)
+			if fn == nil {
+				fmt.Println("unresolved:", spec)
+				continue
+			}
+			fn.WriteTo(os.Stdout)
+			for _, a := range fn.AnonFuncs {
+				a.WriteTo(os.Stdout)
+			}
+		}
 	case "selftest":
 		os.Exit(cmdSelftest(os.Args[2:]))
 	default:
